@@ -818,3 +818,73 @@ def genexp_loops(fn) -> int:
                 i -= 1
             count += 1
     return count
+
+
+def split_webs(fn) -> List[str]:
+    """A local assigned several times whose reads each see exactly one of the assignments is really several variables:
+    the k-th assignment (k >= 2, source order) and its reads are renamed `name__k`.  (`d = p.parent` in two consecutive loops)"""
+    from .cfg import CFG
+    from .dataflow import ReachingDefs
+
+    counts: Dict[str, int] = {}
+    for n in ast.walk(fn):
+        if isinstance(n, ast.Assign) and len(n.targets) == 1 and isinstance(n.targets[0], ast.Name):
+            counts[n.targets[0].id] = counts.get(n.targets[0].id, 0) + 1
+    cands = {k for k, v in counts.items() if v >= 2}
+    if not cands:
+        return []
+    try:
+        g = CFG(fn)
+    except Exception:
+        return []
+    rd = ReachingDefs(g)
+    cands -= set(rd.params) | names_in_nested_scopes(fn) | comprehension_vars(fn)
+    done = []
+    for name in sorted(cands):
+        defs = [d for n in g.live for d in rd.gen[n.id] if d.name == name]
+        if any(d.kind != "assign" or d.node.kind != "stmt" or not isinstance(d.node.ast, ast.Assign) or len(d.node.ast.targets) != 1 for d in defs):
+            continue
+        if any(_is_state(d.value) for d in defs):
+            continue
+        if len({id(d.node.ast) for d in defs}) != len(defs) or len(defs) != counts[name]:
+            continue  # duplicated finally bodies / dead code
+        owner: Dict[int, object] = {}
+        nodes: Dict[int, ast.Name] = {}
+        ok = True
+        for n in g.live:
+            for x in n.walk():
+                if isinstance(x, ast.Name) and x.id == name and isinstance(x.ctx, (ast.Load, ast.Del)):
+                    ds = rd.defs_at(name, n)
+                    if len(ds) != 1:
+                        ok = False
+                        break
+                    d = next(iter(ds))
+                    if d.node is None or owner.get(id(x), d) is not d:
+                        ok = False
+                        break
+                    owner[id(x)] = d
+                    nodes[id(x)] = x
+            if not ok:
+                break
+        if not ok:
+            continue
+        all_loads = [x for x in ast.walk(fn) if isinstance(x, ast.Name) and x.id == name and isinstance(x.ctx, (ast.Load, ast.Del))]
+        if len(all_loads) != len(nodes):
+            continue
+        order = sorted(defs, key=lambda d: (d.node.ast.lineno, d.node.ast.col_offset))
+        for k, d in enumerate(order):
+            if k == 0:
+                continue
+            new = f"{name}__{k + 1}"
+            d.node.ast.targets[0].id = new
+            for i, dd in owner.items():
+                if dd is d:
+                    nodes[i].id = new
+        done.append(name)
+    return done
+
+
+def _is_state(v) -> bool:
+    from .dataflow import _is_state_init
+
+    return v is None or _is_state_init(v)
